@@ -129,6 +129,8 @@ def StrIndexOf(input_string, substring, startIndex):
         s = input_string.value
         t = substring.value
         i = startIndex.value
+        if i > len(s):  # no occurrence can start past the end, not even of the empty string
+            return BVV(-1, 64)
         return BVV(i + s[i:].index(t), 64)
     except ValueError:
         return BVV(-1, 64)
